@@ -131,6 +131,11 @@ def cases(rng, tier):
     # to a key of the right length must not stop that recipient from finding its own entry
     for enc in ("A128GCM", "A128CBC-HS256", "A256GCM"):
         out.append({"t": "rsa15_fallback", "enc": enc})
+    # one process, the same serialization decrypted twice, the application changing the header object it was handed in between:
+    # "no serialization ever yields a different protected header"
+    for alg in ("dir", "A128KW", "ECDH-ES"):
+        for ser in ("compact", "json"):
+            out.append({"t": "hdr_history", "alg": alg, "enc": "A128GCM", "ser": ser})
     # structural model of the compact deserializer, fed with the independent implementation's primitive verdicts
     for alg in ALGS:
         for enc in (ENCS if tier != "quick" else ["A128CBC-HS256", "A256GCM", "A192CBC-HS384"]):
@@ -591,8 +596,30 @@ def run_wrongsize(c):
     return {"need": need, "sizes": res}
 
 
+def run_hdr_history(c):
+    jwe = _jwe()
+    ke, kd = key_for(c["alg"], c["enc"], "P-256")[:2]
+    prot = {"alg": c["alg"], "enc": c["enc"], "kid": "k-1"}
+    pt = b"history payload"
+    def once(ser):
+        if c["ser"] == "compact":
+            r = jwe.deserialize_compact(ser, kd)
+            return r, r["header"]
+        r = jwe.deserialize_json(copy.deepcopy(ser), kd)
+        return r, r["header"]["protected"]
+    try:
+        ser = jwe.serialize_compact(dict(prot), pt, ke) if c["ser"] == "compact" else json.loads(json.dumps(jwe.serialize_json({"protected": dict(prot)}, pt, ke)))
+        r1, h1 = once(ser)
+        first = {k: h1.get(k) for k in ("alg", "enc", "kid")}
+        h1["alg"] = "none"; h1["kid"] = "rewritten"; h1["injected"] = True           # e.g. the header reused to build a reply
+        r2, h2 = once(ser)
+        return {"first": first, "second": {k: h2.get(k) for k in ("alg", "enc", "kid", "injected")}, "payload_ok": r1["payload"] == pt and r2["payload"] == pt}
+    except Exception as e:
+        return {"raised": type(e).__name__ + ": " + str(e)[:80]}
+
+
 def impl(c):
-    return {"wrongsize": run_wrongsize, "rt_compact": run_rt_compact, "tamper_compact": run_tamper_compact, "json": run_json, "cbc_tag": run_cbc_tag, "kdf": run_kdf, "rsa15_fallback": run_rsa15_fallback, "struct": run_struct, "jstruct": run_jstruct}[c["t"]](c)
+    return {"wrongsize": run_wrongsize, "rt_compact": run_rt_compact, "tamper_compact": run_tamper_compact, "json": run_json, "cbc_tag": run_cbc_tag, "kdf": run_kdf, "rsa15_fallback": run_rsa15_fallback, "hdr_history": run_hdr_history, "struct": run_struct, "jstruct": run_jstruct}[c["t"]](c)
 
 
 def model_line(c):
@@ -637,6 +664,11 @@ def oracle(c, out):
                 benign = (comp == "encrypted_key" and direct)            # the encrypted key is unused in the direct modes (not in the property's scope)
                 if not benign:
                     bad(f"{c['alg']} / {c['enc']}: altered serialization ({label}) was accepted", kind="tamper-accepted", component=comp, how=label.split(":")[1].split("@")[0])
+    elif t == "hdr_history":
+        want = {"alg": c["alg"], "enc": c["enc"], "kid": "k-1"}
+        if "raised" in out or out["first"] != want or out["second"] != dict(want, injected=None) or not out["payload_ok"]:
+            bad(f"{c['alg']} {c['ser']}: the same serialization decrypted twice in one process (the application changed the header object it got the first time): "
+                f"{out}, the protected header is {want} both times", kind="roundtrip", direction="header-history")
     elif t == "rsa15_fallback":
         if out.get("witness") and out["second_recipient"] != "ok":
             bad(f"RSA1_5 / {c['enc']}, two recipients: the second recipient could not decrypt ({out['second_recipient']}) because the first entry's encrypted key "
